@@ -208,6 +208,44 @@ Definition enqueue_first_getevent_forwards_args : bool := %s.
 ''' % ((b(d_shapes[0]), b(d_shapes[1]), b(e_shapes[0]), b(e_shapes[1]), b(h_shapes[0]), b(h_shapes[1]),
         b(hd_shapes[0]), b(hd_shapes[1]), returns_param)
        + tuple('true' if x else 'false' for x in d_copied + h_copied + hd_copied + d_fwd + e_fwd))
+    out['GenDisp.v'] += index_sequence_leaf()
+
+
+def index_sequence_leaf():
+    """internal_::MakeIndexSequence, which expands the stored argument tuple of a queued event: recognised when it is the
+    linear recursion  MakeIndexSequence<N, I...> : MakeIndexSequence<N - 1, N - 1, I...>  with  MakeIndexSequence<0, I...>::Type =
+    IndexSequence<I...>  (coq/IndexSeq.v proves that this yields 0 .. N-1 for every N); anything else is refused"""
+    trees = clang_ast('#include "eventpp/eventqueue.h"\n', 'MakeIndexSequence')
+    primary_ok = base_ok = False
+    for t in trees:
+        for n in walk(t):
+            if n.get('kind') == 'ClassTemplateDecl' and n.get('name') == 'MakeIndexSequence':
+                recs = [c for c in kids(n) if c.get('kind') == 'CXXRecordDecl']
+                tps = [c.get('name') for c in kids(n) if c.get('kind') in ('NonTypeTemplateParmDecl',)]
+                if len(recs) >= 1 and len(tps) == 2:
+                    bases = recs[0].get('bases') or []
+                    if len(bases) == 1:
+                        txt = (bases[0].get('type') or {}).get('qualType', '').replace(' ', '')
+                        N, I = tps
+                        if txt == 'MakeIndexSequence<%s-1,%s-1,%s...>' % (N, N, I):
+                            # nothing else in the primary template that could define Type differently
+                            if not any(c.get('kind') in ('TypeAliasDecl', 'TypedefDecl') for c in kids(recs[0])):
+                                primary_ok = True
+            if n.get('kind') == 'ClassTemplatePartialSpecializationDecl' and n.get('name') == 'MakeIndexSequence':
+                targs = [c for c in kids(n) if c.get('kind') == 'TemplateArgument']
+                tps = [c.get('name') for c in kids(n) if c.get('kind') == 'NonTypeTemplateParmDecl']
+                aliases = [c for c in kids(n) if c.get('kind') in ('TypeAliasDecl', 'TypedefDecl') and c.get('name') == 'Type']
+                zero = bool(targs) and any(str(x.get('value')) == '0' for x in walk(targs[0]))
+                if len(tps) == 1 and len(aliases) == 1 and zero and not (n.get('bases') or []):
+                    if (aliases[0].get('type') or {}).get('qualType', '').replace(' ', '') == 'IndexSequence<%s...>' % tps[0]:
+                        base_ok = True
+    if not (primary_ok and base_ok):
+        raise Untranslatable('MakeIndexSequence is not the linear recursion <N, I...> : <N - 1, N - 1, I...> with <0, I...>::Type = IndexSequence<I...>')
+    return '''
+(* internal_::MakeIndexSequence (expansion of a queued event's argument tuple) is the linear recursion
+   MakeIndexSequence<N, I...> : MakeIndexSequence<N - 1, N - 1, I...>,  MakeIndexSequence<0, I...>::Type = IndexSequence<I...> *)
+Definition index_sequence_linear : bool := true.
+'''
 
 
 LEAVES = [('dispatch', leaf_dispatch)]
